@@ -268,6 +268,7 @@ namespace pika::threads::detail {
 
             std::unique_lock<pu_mutex_type> l;
             num_thread = select_active_pu(l, num_thread);
+            PIKA_VERIF_POST("place.create", nullptr, this->get_parent_pool()->get_pool_index(), ::pika::verif::place_pack(num_thread, static_cast<int>(data.schedulehint.mode), data.schedulehint.hint, static_cast<int>(data.priority), data.run_now ? 4u : 0u));
 
             PIKA_ASSERT(num_thread < queue_size);
             queues_[num_thread]->create_thread(data, id, ec);
@@ -418,6 +419,7 @@ namespace pika::threads::detail {
 
             std::unique_lock<pu_mutex_type> l;
             num_thread = select_active_pu(l, num_thread, allow_fallback);
+            PIKA_VERIF_POST("place.sched", get_thread_id_data(thrd), this->get_parent_pool()->get_pool_index(), ::pika::verif::place_pack(num_thread, static_cast<int>(schedulehint.mode), schedulehint.hint, 2, allow_fallback ? 1u : 0u));
 
             PIKA_ASSERT(get_thread_id_data(thrd)->get_scheduler_base() == this);
 
@@ -452,6 +454,7 @@ namespace pika::threads::detail {
 
             std::unique_lock<pu_mutex_type> l;
             num_thread = select_active_pu(l, num_thread, allow_fallback);
+            PIKA_VERIF_POST("place.sched", get_thread_id_data(thrd), this->get_parent_pool()->get_pool_index(), ::pika::verif::place_pack(num_thread, static_cast<int>(schedulehint.mode), schedulehint.hint, 2, (allow_fallback ? 1u : 0u) | 2u));
 
             PIKA_ASSERT(get_thread_id_data(thrd)->get_scheduler_base() == this);
 
@@ -779,6 +782,7 @@ namespace pika::threads::detail {
                 queues_[num_thread] = new thread_queue_type(num_thread, thread_queue_init_);
             }
 
+            PIKA_VERIF_POST("place.queue", queues_[num_thread], parent_pool_->get_pool_index() | (queues_.size() << 8), (0u << 16) | num_thread);
             queues_[num_thread]->on_start_thread(num_thread);
 
             auto const& topo = ::pika::threads::detail::get_topology();
